@@ -46,6 +46,8 @@ def directed_workloads(ctx):
                 conn + stores1 + stores2, [('drain',)]))
     out.append((dict(max=20, nr=nr, strategy='naive', focus=True, prefill=[('m1', 9), ('m2', 8)]),
                 conn + stores1 + [('disconnect', 1)] + stores2, [('drain',), ('drain',)]))
+    out.append((dict(max=20, nr=nr, strategy='sorted', focus=False, prefill=[('m1', 10), ('m2', 6), ('m3', 3)]),
+                conn + [('store', 'm4', 1, 1), ('store', 'm4', 2, 2), ('store', 'm5', 1, 3)], [('drain',), ('drain',), ('drain',)]))
   return out
 
 
@@ -62,6 +64,13 @@ def directed_plans(lm, ctx):
     plans.append([('S', ('pred', 'paused')), ('W', ('line', '__call__', H, k)), ('S', ('done',)), ('W', ('done',))])
     plans.append([('S', ('pred', 'paused')), ('W', ('line', '__call__', H, k)), ('S', ('line', '__call__', H, 2)),
                   ('W', ('done',)), ('S', ('done',))])
+  for n in range(1, ctx.pick(9, 14)):
+    # lock-release windows: right after the n-th release of the cache lock by one thread the other thread runs
+    # one operation / all its operations
+    plans.append([('S', ('kind', 'release', n)), ('W', ('kind', 'op', 1)), ('S', ('done',)), ('W', ('done',))])
+    plans.append([('S', ('kind', 'release', n)), ('W', ('done',)), ('S', ('done',))])
+    plans.append([('W', ('kind', 'release', n)), ('S', ('kind', 'op', 1)), ('W', ('done',)), ('S', ('done',))])
+    plans.append([('W', ('kind', 'release', n)), ('S', ('done',)), ('W', ('done',))])
   return plans
 
 
@@ -178,7 +187,7 @@ def relay_side(ctx):
              dict(nd=2, maxq=10, mpm=4, flow=True, dynamic=False, nr=1, low_pct=0.2, hard_pct=2.0),
              dict(nd=2, maxq=3, mpm=1, flow=True, dynamic=False, nr=3, protocol='line')]
   for ci, cfg in enumerate(cfgs):
-    consts, traces, origins = relaycheck.run_traces(ctx, rm, cfg, nsim=ctx.pick(30, 300), nrandom=ctx.pick(60, 1200),
+    consts, traces, origins = relaycheck.run_traces(ctx, rm, cfg, nsim=ctx.pick(30, 300), nrandom=ctx.pick(120, 1500),
                                                     nevents=ctx.pick(40, 100), seed_base=ctx.seed + 50 + ci)
     verdicts = relaycheck.judge(ctx, consts, traces, 'C09 relay traces cfg %d' % ci)
     relaycheck.report(ctx, traces, origins, verdicts, relaycheck.C09_FLAGS)
